@@ -448,9 +448,14 @@ pub fn compare(sent: &[Ev], recv: &[Ev], mode: RMode, max_data: usize, complete:
 }
 
 pub struct Opts {
+    pub prop: &'static str,
     pub cancel_pct: u64,
     pub allow_ports: bool,
     pub max_ops: usize,
+    /// Stall random directions of the transport for random periods while the scripts run.
+    pub stalls: bool,
+    /// Report a sender task that is still pending at quiescence (all receivers consume) as a violation.
+    pub pending_violation: bool,
 }
 
 pub fn run_one(run: u64, seed: u64, opts: &Opts) -> RunOut {
@@ -505,6 +510,24 @@ pub fn run_one(run: u64, seed: u64, opts: &Opts) -> RunOut {
             tasks.push((st1, rt1));
             tasks.push((st2, rt2));
         }
+        if opts.stalls {
+            let mut srng = rng.fork(5);
+            for _ in 0..(1 + srng.below(4)) {
+                let d = if srng.chance(50) { crate::simnet::Dir::AB } else { crate::simnet::Dir::BA };
+                net.set_starved(d, true);
+                for _ in 0..srng.below(40) {
+                    tokio::task::yield_now().await;
+                }
+                if srng.chance(50) {
+                    settle().await;
+                }
+                net.set_starved(d, false);
+                for _ in 0..srng.below(10) {
+                    tokio::task::yield_now().await;
+                }
+            }
+            out.count("stall_phases", 1);
+        }
         settle().await;
 
         let mut any_cancel = false;
@@ -521,6 +544,18 @@ pub fn run_one(run: u64, seed: u64, opts: &Opts) -> RunOut {
             let complete = st.is_finished() && s.done && r.eos;
             if !st.is_finished() {
                 out.count("sender_pending_at_quiescence", 1);
+                if opts.pending_violation {
+                    let mut rp = replay.clone();
+                    rp["where"] = json!(name);
+                    rp["completed_sends"] = json!(s.completed.len());
+                    rp["received_events"] = json!(r.received.len());
+                    rp["trace_tail"] = net.trace_json(40);
+                    out.viol(
+                        format!("{}:pending-at-quiescence", opts.prop),
+                        format!("{name}: a send is still pending at quiescence of a healthy, drained transport although the receiver consumed everything delivered ({} completed, {} received, {} cancelled, {} try_send Full)", s.completed.len(), r.received.len(), s.cancelled, s.try_full),
+                        rp,
+                    );
+                }
             }
             if st.is_finished() && !rt.is_finished() {
                 let mut rp = replay.clone();
@@ -529,7 +564,7 @@ pub fn run_one(run: u64, seed: u64, opts: &Opts) -> RunOut {
                 rp["received"] = json!(r.received.iter().map(ev_short).collect::<Vec<_>>());
                 rp["trace_tail"] = net.trace_json(40);
                 out.viol(
-                    "C01:receiver-pending-after-sender-done",
+                    format!("{}:receiver-pending-after-sender-done", opts.prop),
                     format!("{name}: sender finished and dropped, receiver still pending at quiescence after {} of {} events", r.received.len(), s.completed.len()),
                     rp,
                 );
@@ -539,7 +574,7 @@ pub fn run_one(run: u64, seed: u64, opts: &Opts) -> RunOut {
                 let mut rp = replay.clone();
                 rp["where"] = json!(name);
                 rp["trace_tail"] = net.trace_json(40);
-                out.viol("C01:error-on-healthy-connection", format!("{name}: {e}"), rp);
+                out.viol(format!("{}:error-on-healthy-connection", opts.prop), format!("{name}: {e}"), rp);
             }
             if let Err(why) = compare(&s.completed, &r.received, *mode, *max_data, complete, s.cancelled_oversize) {
                 let mut rp = replay.clone();
@@ -548,10 +583,16 @@ pub fn run_one(run: u64, seed: u64, opts: &Opts) -> RunOut {
                 rp["received"] = json!(r.received.iter().map(ev_short).collect::<Vec<_>>());
                 rp["recv_mode"] = json!(format!("{mode:?}"));
                 rp["trace_tail"] = net.trace_json(60);
-                out.viol("C01:delivery-mismatch", format!("{name} [{mode:?}]: {why}"), rp);
+                out.viol(format!("{}:delivery-mismatch", opts.prop), format!("{name} [{mode:?}]: {why}"), rp);
             }
         }
-        wire_violations_to(&mut out, &net, "C01", &replay);
+        wire_violations_to(&mut out, &net, opts.prop, &replay);
+        let zp = net.with_mon(|m| m.stats.zero_port_frames).unwrap_or(0);
+        if zp > 0 && opts.pending_violation {
+            let mut rp = replay.clone();
+            rp["trace_tail"] = net.trace_json(30);
+            out.viol(format!("{}:zero-progress-frames", opts.prop), format!("{zp} PortData frames without any port were emitted (no API call asks for one)"), rp);
+        }
         wire_stats_to(&mut out, &net);
 
         // non-triviality and distinctness
@@ -587,7 +628,7 @@ pub fn run_one(run: u64, seed: u64, opts: &Opts) -> RunOut {
     for p in crate::mem::panics_since(&prefix, panics0) {
         let mut rp = replay.clone();
         rp["panic"] = json!({"thread": p.thread, "message": p.message, "location": p.location});
-        out.viol("C01:panic", format!("panic at {}: {}", p.location, p.message), rp);
+        out.viol(format!("{}:panic", opts.prop), format!("panic at {}: {}", p.location, p.message), rp);
     }
     out
 }
